@@ -79,7 +79,7 @@ def verify(sid):
 def detect(sid, props=None, tier='quick'):
     d = os.path.join(SEEDED, sid)
     meta = json.load(open(os.path.join(d, 'meta.json')))
-    props = props or [meta['property']]
+    props = props or ([meta['property']] + list(meta.get('also', [])))
     try:
         root = scratch(os.path.join(d, 'patch.diff'))
     except StalePatch as e:
@@ -120,11 +120,14 @@ def main():
             for sid, res in ex.map(lambda s: detect(s, None if not also else [json.load(open(os.path.join(SEEDED, s, 'meta.json')))['property']] + also, a.tier), ids):
                 for p, status, info in res:
                     print('%-28s %-4s %-12s %s' % (sid, p, status, info))
-                    bad += status != 'caught'
-                p, status, info = res[0]
+                bad += not any(x[1] == 'caught' for x in res)
+                hit = [x for x in res if x[1] == 'caught'] or res[:1]
+                p, status, info = hit[0]
                 m = re.search(r'oracle=(\S+) mech=(\{.*?\}) count', info)
-                results[sid] = {'status': status, 'tier': a.tier,
-                                'caught_by': ('%s %s' % (m.group(1), m.group(2))) if m else status}
+                by = ('%s %s' % (m.group(1), m.group(2))) if m else status
+                if p != res[0][0]:
+                    by = '%s check: %s (%s check: %s)' % (p, by, res[0][0], res[0][1])
+                results[sid] = {'status': status, 'tier': a.tier, 'caught_by': by}
             json.dump(results, open(rpath, 'w'), indent=1, sort_keys=True)
     sys.exit(1 if bad else 0)
 
